@@ -578,15 +578,11 @@ func (g *Gen) callSiteClauses(fr *Frame, st *State, site ssa.Instruction, c *ssa
 		env := g.envFor(fr, st)
 		env.pos = site.Pos()
 		env.vars = map[string]Val{}
-		if fr == top {
-			for k, v := range top.params {
-				env.vars[k] = v
-			}
-		}
 		for k, v := range penv {
 			env.vars["callee."+k] = v
 			if _, clash := env.vars[k]; !clash {
-				if _, isSrc := g.lookupSrc(env, k); !isSrc {
+				_, isParam := env.params[k]
+				if _, isSrc := g.lookupSrc(env, k); !isSrc && !isParam {
 					env.vars[k] = v
 				}
 			}
